@@ -492,6 +492,10 @@ func (p *uPacketPacker) MarshalInitialPacketPayload(pl payload, v protocol.Versi
 		return appendFramesVerbatim(pl.frames, v)
 	}
 
+	// [UQUIC] Each call corresponds to one Initial datagram: InitialPackets[i] and the per-datagram
+	// frame builders are indexed by it, whichever builder is in use.
+	defer func() { p.initialDatagramIdx++ }()
+
 	var originalFrameBytes []byte
 
 	for _, f := range pl.frames {
@@ -554,9 +558,7 @@ func (p *uPacketPacker) MarshalInitialPacketPayload(pl payload, v protocol.Versi
 	// [UQUIC] Use QUICFrameBuilderEx if available: supports N-datagram Initials via
 	// per-datagram index and base offset. Falls back to Build() for single-datagram specs.
 	if ext, ok := p.uSpec.InitialPacketSpec.FrameBuilder.(QUICFrameBuilderEx); ok {
-		result, err := ext.BuildForDatagram(p.initialDatagramIdx, cryptoData, baseOffset)
-		p.initialDatagramIdx++ // advance after building; each call corresponds to one datagram
-		return result, err
+		return ext.BuildForDatagram(p.initialDatagramIdx, cryptoData, baseOffset)
 	}
 	return p.uSpec.InitialPacketSpec.FrameBuilder.Build(cryptoData)
 }
